@@ -136,11 +136,29 @@ def _worker(task):
             c = op["op"] + ":" + ci[0] + (":" + str(ci[1]) if ci[0] == "err" else "")
             classes[c] = classes.get(c, 0) + 1
     out["classes"] = classes
+    if r["ok"] and len(r["steps"]) == len(prog):
+        # third voter: the small reference specification (oracle.py, written from the property texts) against the
+        # implementation's answers on programs where model and implementation agree; a statistic, not a verdict
+        try:
+            rc = oracle.RefCache(); nop = nmis = 0; first = None
+            for i, (op, st) in enumerate(zip(prog, r["steps"])):
+                exp = rc.step(i, op)
+                if exp is None or st[2] is None or op["op"] in ("damage", "cmptree", "refcheck", "chdir"):
+                    continue
+                nop += 1
+                if O.results_equal(_strip_time(exp), _strip_time(st[2]), {}) is not None:
+                    nmis += 1
+                    if first is None:
+                        first = f"step {i} {op['op']}: reference {str(exp)[:160]} / implementation {str(st[2])[:160]}"
+            out["ref"] = (nop, nmis, first)
+        except Exception:
+            out["ref"] = (0, 0, None)
     if not r["ok"]:
         out["prog"] = prog
         out["tree"] = r["tree"]
         out["content_bad"] = r.get("content_bad") or []
         out["layout_bad"] = r.get("layout_bad")
+        out["direct_bad"] = r.get("direct_bad") or []
         out["raced"] = r.get("raced", False)
         bad = [(i, s) for i, s in enumerate(r["steps"]) if s[3] is not None]
         worst = [(i, s) for i, s in bad if s[2] is not None and s[2][0] in ("panic", "hang", "dead")]
@@ -159,6 +177,8 @@ def classify(pid, res):
     prog, fail = res["prog"], res.get("fail")
     if res.get("layout_bad"):
         return True, res["layout_bad"]
+    if res.get("direct_bad"):
+        return True, res["direct_bad"][0]
     if res.get("content_bad"):
         return True, "after this program (no damage step in it) " + res["content_bad"][0]
     if fail is None:
@@ -300,6 +320,11 @@ def main():
             stats["steps"] += res["n"]
             for c, k in res["classes"].items():
                 stats["classes"][c] = stats["classes"].get(c, 0) + k
+            if "ref" in res:
+                rs = stats.setdefault("reference_spec", {"steps_with_opinion": 0, "mismatches": 0, "first_mismatch": None})
+                rs["steps_with_opinion"] += res["ref"][0]; rs["mismatches"] += res["ref"][1]
+                if rs["first_mismatch"] is None and res["ref"][2]:
+                    rs["first_mismatch"] = res["ref"][2]
             h = prog_hash(task[0])
             if len(task[0]) > 2:
                 seen.add(h)
@@ -425,6 +450,7 @@ def write_evidence(pid, tier, seed, spec, gate, stats, seen, samples, violations
             "result_class_distribution": dict(sorted(stats["classes"].items(), key=lambda kv: -kv[1])[:60]),
             "step_level": stats.get("step", {}),
             "extraction_crosscheck": stats.get("xcheck", {}),
+            "reference_spec_third_voter": stats.get("reference_spec", {}),
             "exhaustive": False,
         },
         "assumptions": spec.get("assumptions", []) + S.COMMON_ASSUMPTIONS,
